@@ -265,8 +265,13 @@ def cmp(op, a, b):
             if first[1] < 0:
                 d = {t: -k for t, k in d.items()}
                 c = -c
-        lhs = _from_lin(0, {t: k for t, k in d.items() if k > 0})
-        rhs = _from_lin(-c, {t: -k for t, k in d.items() if k < 0})
+        pos = {t: k for t, k in d.items() if k > 0}
+        negs = {t: -k for t, k in d.items() if k < 0}
+        if not pos:
+            # constant on the left when the left side has no terms:  c < x
+            return ('cmp', op, C(c), _from_lin(0, negs))
+        lhs = _from_lin(0, pos)
+        rhs = _from_lin(-c, negs)
         return ('cmp', op, lhs, rhs)
     if op in ('==', '!='):
         a, b = sorted((a, b), key=_k)
